@@ -31,6 +31,9 @@ succeeds on the host (oracle).  `off` / `abbr` = what Go reports for the zone at
     zh     <fn> <a1> <zone> <table> <args>                     ONE compiled `{timeattr {0} <a1> <zone>}` (fn = attr), `{timeformat {0} <a1> <zone>}`
            (fmt) or `{time {0} <a1> <zone>}` (time, explicit format) evaluated on the HISTORY <args> in order; the model answers
            each argument on its own from the table (no oracle, no memory)
+    zn     <fmt> <zone> <table> <zones> <strs>                 `{time {0} <fmt> <zone>}` (explicit format) on the texts <strs>, the location given as
+           table + zone list `<name>:<off>,…` (`l.zone` of the real location, file order): abbreviations in the text
+           go through the model of `Location.lookupName`; total, no oracle
 -/
 namespace Rare.Drv.C18
 open Rare Rare.C18 Rare.Proto
@@ -93,6 +96,16 @@ def parseTab (s : String) : Option ZoneTab :=
         match tr with
         | some tr => some ⟨(o, a), tr⟩
         | none => none
+      | _, _ => none
+    | _ => none
+
+def parseZones (s : String) : Option (List (Bytes × Int)) :=
+  if s = "." then some []
+  else (s.splitOn ",").mapM fun e =>
+    match e.splitOn ":" with
+    | [n, o] =>
+      match Hex.dec n, o.toInt? with
+      | some n, some o => some (n, o)
       | _, _ => none
     | _ => none
 
@@ -266,6 +279,16 @@ def handle : List String → String
         | _ => "unmodelled needs-seq-op"
       else "bad-args"
     | _, _, _ => "bad-args"
+  | ["zn", fmt, _, tab, zones, strs] =>
+    match Hex.dec fmt, parseTab tab, parseZones zones, decHexList strs with
+    | some fmt, some z, some zones, some strs =>
+      if !isAscii fmt then "unmodelled non-ascii"
+      else if !sortedTrans z.trans then "bad-args"
+      else match modeOf timeFormats fmt with
+        | .explicit layout =>
+          renderSeq (strs.map fun str => parseThen layout str fun p => .val (itoa (instantInN z zones p)))
+        | _ => "unmodelled needs-seq-op"
+    | _, _, _, _ => "bad-args"
   | _ => "bad-op"
 
 end Rare.Drv.C18
